@@ -119,7 +119,13 @@ def audit_axioms(module: str, theorems: list[str], work: Path) -> tuple[dict[str
     src = f"import {module}\n" + "".join(f"#print axioms {t}\n" for t in theorems)
     f = work / "Audit.lean"
     f.write_text(src)
-    p = subprocess.run(["lake", "env", "lean", str(f)], cwd=LEAN, capture_output=True, text=True)
+    lock = open(LEAN / ".build.lock", "w")
+    fcntl.flock(lock, fcntl.LOCK_EX)     # .olean files must not be rebuilt by a concurrent check while we read them
+    try:
+        p = subprocess.run(["lake", "env", "lean", str(f)], cwd=LEAN, capture_output=True, text=True)
+    finally:
+        fcntl.flock(lock, fcntl.LOCK_UN)
+        lock.close()
     out = p.stdout + p.stderr
     res: dict[str, list[str]] = {}
     for m in re.finditer(r"'(\S+)' depends on axioms: \[([^\]]*)\]", out, re.S):
@@ -129,10 +135,14 @@ def audit_axioms(module: str, theorems: list[str], work: Path) -> tuple[dict[str
     return res, out
 
 
+DRIVER_COPY: list[Path] = []
+
+
 def run_driver(lines: list[str]) -> list[str]:
     if not lines:
         return []
-    p = subprocess.run([str(DRIVER)], input="\n".join(lines) + "\n", capture_output=True, text=True)
+    exe = DRIVER_COPY[0] if DRIVER_COPY else DRIVER
+    p = subprocess.run([str(exe)], input="\n".join(lines) + "\n", capture_output=True, text=True)
     out = p.stdout.split("\n")
     if out and out[-1] == "":
         out.pop()
@@ -205,6 +215,17 @@ def _run(prop, mod, tier, seed, work, t0, replay_file) -> int:
             print("lake build failed:\n" + log[-1][-3000:])
             return 2
         tie_broken.append("lake build failed on regenerated definitions:\n" + log[-1][-2000:])
+    if built:
+        # private copy of the driver: a concurrent `lake build` of another check may relink the binary
+        import shutil
+        lock = open(LEAN / ".build.lock", "w")
+        fcntl.flock(lock, fcntl.LOCK_EX)
+        try:
+            shutil.copy2(DRIVER, work / "pyoak_model")
+        finally:
+            fcntl.flock(lock, fcntl.LOCK_UN)
+            lock.close()
+        DRIVER_COPY[:] = [work / "pyoak_model"]
     # 3 audit
     bad = forbidden_tokens()
     if bad:
